@@ -36,7 +36,7 @@ DEFAULT_FAIL = {'rc': 1, 'dps': 0, 'marker': False}
 
 
 # ---------------------------------------------------------------- configuration
-def build_config(scn):
+def build_config(scn, workdir=None):
     deco = scn.get('deco') or {}
     runs = scn['runs']
     suites, execs = {}, {}
@@ -48,7 +48,9 @@ def build_config(scn):
         if r.get('custom') is not None:
             # a custom gauge adapter loaded from a file next to the configuration: {class name: file}
             gauge = {r['custom'].get('cls', 'MyAdapter'): 'adapter_%d.py' % r['custom'].get('variant', 0)}
-        suite = {'gauge_adapter': gauge if r.get('adapter', True) else 'NoSuchThing',
+        if not r.get('adapter', True) and not (r.get('custom') or {}).get('broken'):
+            gauge = 'NoSuchThing'
+        suite = {'gauge_adapter': gauge,
                  'command': '%(benchmark)s %(invocation)s' + deco.get('cmd_suffix', '')
                             + (' %(nosuchkey)s' if r.get('badcmd') else ''),
                  'benchmarks': [bench]}
@@ -82,7 +84,9 @@ def build_config(scn):
         if prev is not None and prev.get('build') and not e.get('build'):
             e['build'] = prev['build']
         execs['E%d%s' % (r['exe'], nsfx)] = e
-    cfg = {'default_experiment': 'T', 'default_data_file': 't.data',
+    # an absolute data file: a worker thread that outlives its session can never write into some other cwd
+    cfg = {'default_experiment': 'T',
+           'default_data_file': os.path.join(os.path.abspath(workdir), 't.data') if workdir else 't.data',
            'benchmark_suites': suites, 'executors': execs,
            'experiments': {'T': {'executions': [{'E%d%s' % (x, nsfx): {'suites': ss}} for x, ss in sorted(per_exe.items())]}}}
     return cfg
@@ -149,7 +153,10 @@ def write_custom_adapters(workdir, scn):
         if c is not None:
             v = c.get('variant', 0)
             with open(os.path.join(workdir, 'adapter_%d.py' % v), 'w') as f:
-                f.write(CUSTOM_ADAPTER % {'variant': v, 'cls': c.get('cls', 'MyAdapter'), 'offset': 0.25 * v})
+                # `broken`: the file does not define the class the configuration names -> the adapter is unknown
+                cls = c.get('cls', 'MyAdapter')
+                f.write(CUSTOM_ADAPTER % {'variant': v, 'cls': ('NotThe' + cls) if c.get('broken') else cls,
+                                          'offset': 0.25 * v})
 
 
 RUN_RE = re.compile(r'(?:^|\s)\S*/x(\d+) B(\d+) (\d+)')
@@ -322,7 +329,7 @@ def run_session(workdir, scn, sess, timeout_guard=None):
     """run one session of the scenario in workdir (config written on first use); returns observation dict"""
     conf = os.path.join(workdir, 'test.conf')
     if not os.path.exists(conf):
-        drive.write_config(workdir, build_config(scn))
+        drive.write_config(workdir, build_config(scn, workdir))
         write_custom_adapters(workdir, scn)
     script = Script(scn, sess)
     grabbed = {}
@@ -380,6 +387,7 @@ def run_session(workdir, scn, sess, timeout_guard=None):
             controller.stop()
     obs = {'status': res.status(), 'exit': res.exit, 'crash': list(res.crash) if res.crash else None,
            'traceback': ('Traceback (most recent call last)' in res.stdout + res.stderr),
+           'mentions_missing_adapter': ("Couldn't find gauge adapter" in res.stdout + res.stderr),
            'order': grabbed.get('order'), 'loaded': grabbed.get('loaded'),
            'log': [list(x) for x in script.log], 'unknown_starts': script.unknown,
            'commands': script.commands, 'probes': script.probes,
